@@ -214,8 +214,34 @@ def replay (guard : Bool) : State → List Op → List String
     let r := step guard s op
     (showOut r.2 ++ " " ++ showState r.1 ++ " " ++ showObservers r.1) :: replay guard r.1 ops
 
+/-- FNV-1a (64 bit) of the UTF-8 bytes: the digest both sides compute in the exhaustive tier. -/
+def fnv (s : String) : UInt64 :=
+  s.toUTF8.foldl (fun h b => (h ^^^ b.toUInt64) * 1099511628211) 14695981039346656037
+
+/-- All continuations of length `d` over the alphabet, in lexicographic order: digest of
+(outcomes of the continuation, final state, final observers). -/
+def treeDigests (guard : Bool) (alphabet : List Op) : Nat → State → String → List String
+  | 0, s, outs => [toString (fnv (outs ++ " " ++ showState s ++ " " ++ ((showObservers s).splitOn " inv=").headD ""))]
+  | d + 1, s, outs =>
+    alphabet.flatMap fun op =>
+      let r := step guard s op
+      treeDigests guard alphabet d r.1 (outs ++ "," ++ showOut r.2)
+
+def splitAt (sep : String) : List String → List String × List String
+  | [] => ([], [])
+  | t :: ts => if t == sep then ([], ts) else let r := splitAt sep ts; (t :: r.1, r.2)
+
 def answer (l : String) : String :=
   match tokens l with
+  | "tree" :: g :: d :: ts =>
+    -- tree <guard> <depth> <prefix ops> | <alphabet ops>
+    let (pre, alph) := splitAt "|" ts
+    match d.toNat?, pOps (pre.length + 1) pre, pOps (alph.length + 1) alph with
+    | some depth, some pops, some aops =>
+      let guard := g == "1"
+      let s := run guard .empty pops
+      " ".intercalate (treeDigests guard aops depth s "")
+    | _, _, _ => "bad"
   | "run" :: g :: ts =>
     match pOps (ts.length + 1) ts with
     | some ops => " || ".intercalate (replay (g == "1") .empty ops)
